@@ -37,6 +37,10 @@ def locations(doc, pre=()):
 
 @st.composite
 def cases(draw):
+    if draw(st.integers(0, 60)) == 0:
+        # a document nested far deeper than any recursion limit; built in the check from these numbers (JSON text of
+        # such a document could not even be written by the json module)
+        return {"deep": draw(st.sampled_from([900, 1200, 3000, 6000])), "shape": draw(st.integers(0, 2))}
     doc = draw(docs.filter(lambda d: isinstance(d, (dict, list))))
     also = draw(st.lists(st.sampled_from(OPTIONAL), max_size=4, unique=True))
     locs = [p for p, _ in locations(doc)]
@@ -102,9 +106,51 @@ class C14(Prop):
     def strategy(self, tier):
         return cases()
 
+    def check_deep(self, case, res):
+        n, shape = case.get("deep"), case.get("shape", 0)
+        if not isinstance(n, int) or not 1 <= n <= 10000:
+            res.excluded = "malformed"
+            return res
+        leafv = {"leaf": ["here"]}
+        doc, tokens = leafv, []
+        for i in range(n):
+            if shape == 0 or (shape == 2 and i % 2):
+                doc = [doc]
+                tokens.append("0")
+            else:
+                doc = {"k/~": doc}
+                tokens.append("k/~")
+        tokens.reverse()
+        frag = "".join("/" + optr.escape(t).replace("~", "%7E") for t in tokens)
+        resolver = impl.validators.RefResolver("", {})
+        res.evals += 2
+        res.labels.append("deep-document")
+        res.nontrivial = True
+        try:
+            got = resolver.resolve_fragment(doc, frag + "/leaf/0")
+            if got != "here":
+                res.fail(("deep", "wrong-value"), "depth %d: returned %r" % (n, got))
+        except Exception as e:
+            res.fail(("deep", "raises", impl.tname(e)), "a pointer of %d tokens into a document nested that deep raised %s" % (n, impl.tname(e)))
+        try:
+            resolver.resolve_fragment(doc, frag + "/leaf/7")
+            res.fail(("deep", "negative-returns-a-value"), "depth %d" % n)
+        except impl.exceptions.RefResolutionError:
+            pass
+        except Exception as e:
+            res.fail(("deep", "negative-wrong-exception", impl.tname(e)), "depth %d: %s" % (n, impl.tname(e)))
+        # unlink iteratively: dropping a 6000-level structure at once would recurse in the deallocator
+        while isinstance(doc, (list, dict)) and doc is not leafv:
+            nxt = doc[0] if isinstance(doc, list) else doc["k/~"]
+            doc.clear()
+            doc = nxt
+        return res
+
     def check(self, case):
         res = Result()
         res.evals = 0
+        if "deep" in case:
+            return self.check_deep(case, res)
         doc = case["doc"]
         if not isinstance(doc, (dict, list)):
             res.excluded = "scalar-document"
